@@ -1,0 +1,30 @@
+// +build verif
+
+package storage
+
+// Contracts for the verifier in /verif (comment-only; see /verif/DESIGN.md).
+// Store is the interface both back ends implement; what it does to the data is
+// the subject of C14 (per back end). Here: each Mutate is ONE write handed to
+// the store (ghost bookkeeping, C07), reads change nothing.
+
+/*@
+func Store.Mutate
+  modifies everything, mutateCalls, lastMutations, lastMetadata
+  assumes mutateCalls == old(mutateCalls) + 1 && lastMutations == mutations && lastMetadata == metadata
+
+func Store.Get
+  ensures isnil(result_1) ==> result_0 != nil
+func Store.GetLast
+  ensures isnil(result_1) ==> result_0 != nil
+  // ASSUMED data invariant: every key of the history table is a 10-byte position (index, height)
+  assumes isnil(result_1) && table == HistoryTable ==> len(result_0.Key) == 10
+func Store.GetRange
+func Store.GetAll
+  ensures !isnil(result)
+func Store.Close
+  modifies everything
+
+func NewMutation
+  props C05 C07
+  ensures result != nil && fresh(result) && result.Table == table && result.Key == key && result.Value == value
+@*/
